@@ -20,6 +20,9 @@ var tagRe = regexp.MustCompile(`c(\d+)x(\d+)`)
 
 // CallOf returns the call id carried by a command, or -1.
 func CallOf(argv []string) int {
+	if len(argv) == 0 { // a broken client can put an empty command on the wire
+		return -1
+	}
 	for _, a := range argv[1:] {
 		if m := tagRe.FindStringSubmatch(a); m != nil {
 			n, _ := strconv.Atoi(m[1])
@@ -95,6 +98,11 @@ func isNoReply(a []string) bool {
 // following tagged command, EXEC to the preceding one; the PING the writer appends after an
 // unsubscribe command is consumed here and is not a member of the slot).
 func Reconstruct(cmds [][]string, calls map[int]*Call) ([]Slot, error) {
+	for i, c := range cmds {
+		if len(c) == 0 {
+			return nil, fmt.Errorf("command %d on the wire is empty (a command object was reused while it was being written)", i)
+		}
+	}
 	var slots []Slot
 	anon := 1_000_000
 	idAt := func(i int) int { // call id of the group that command i belongs to when looking forward
